@@ -594,7 +594,7 @@ def gen_multi_program(rng):
     p = Prog()
     p.kind = 'multi'
     p.sources = [0]
-    c1, c2 = rng.choice([(0, 2), (0, 1), (2, 0), (1, 0)])
+    c1, c2 = rng.choice([(0, 2), (0, 1), (2, 0), (1, 0), (3, 4), (4, 3), (0, 3), (4, 2)])     # 3 / 4: one checker TYPE with two tolerances
     p.tasks[0] = ('Q', 1, c1, ('Q', 1, c2, ('D',)))
     p.tasks[1] = ('R', 0, 0, ('D',))
     p.exact_only = False
@@ -753,6 +753,43 @@ def gen_reported_products_program(rng):
     probe = len(steps)
     steps.append(['S', str(len(allt))] + sum((['q', str(t)] for t in allt), []))
     return p, steps, {'bu': {bu}, 'probe': {probe: bu}}
+
+
+def gen_chain_readers_program(rng):
+    """Directed family for C20/C05 (well-formed: never aborts): a require chain T_k -> ... -> T_1 -> Gen of depth 2..5 in which SEVERAL
+    tasks of the chain read Gen's product (each after its require of the next task, so each reaches the generator transitively,
+    through the tasks below it); optionally a side reader that reaches the chain in the middle.  When Gen re-executes, the write is
+    validated against every recorded reader: each of them has a path to the generator, the later ones only through the earlier."""
+    p = Prog(); p.kind = 'wf'; p.exact_only = True
+    p.sources = [0, 1]
+    g = 10
+    depth = rng.randint(2, 5)
+    gen = depth                     # ids: chain tasks 0 (top) .. depth-1, generator = depth
+    p.tasks[gen] = ('R', 0, 0, ('W', g, 0, ('a',), ('T', ('a',) if rng.random() < 0.6 else ('k', 3))))
+    p.generated = {g: (gen, 0)}
+    readers = [i for i in range(depth) if rng.random() < 0.6]
+    if len(readers) < 2: readers = sorted(set(readers) | {0, depth - 1})
+    for i in range(depth):
+        body = ('R', g, 0, ('T', ('a',))) if i in readers else ('T', ('a',))
+        if rng.random() < 0.3: body = ('R', 1, 0, body)
+        p.tasks[i] = ('Q', i + 1, rng.choice([0, 0, 2]) if i + 1 != gen or i not in readers else 0, body)
+    tid = gen + 1
+    if rng.random() < 0.5:          # a side reader hanging on a middle task
+        m = rng.randint(0, depth - 1)
+        p.tasks[tid] = ('Q', m, 0, ('R', g, 0, ('T', ('a',)))); tid += 1
+    steps = [['E', '0', '1'], ['E', '1', '1']]
+    roots = [0] + list(range(gen + 1, tid)); rng.shuffle(roots)
+    steps.append(['S', str(len(roots))] + sum((['q', str(t)] for t in roots), []))
+    for _ in range(rng.randint(1, 2)):
+        steps.append(['E', '0', str(rng.randint(2, 5))])
+        if rng.random() < 0.3: steps.append(['E', '1', str(rng.randint(2, 5))])
+        if rng.random() < 0.5:
+            rs = roots[:]; rng.shuffle(rs)
+            steps.append(['S', str(len(rs))] + sum((['q', str(t)] for t in rs), []))
+        else:
+            steps.append(['S', '1', 'b', '2', '0', '1'])
+            steps.append(['S', str(len(roots))] + sum((['q', str(t)] for t in roots), []))
+    return p, steps, {}
 
 
 def gen_abort_bu_program(rng):
